@@ -52,6 +52,9 @@ def check(repo: Repo, rep, tier):
     from .C10 import star_no_insert
 
     star_no_insert(repo, rep)
+    from .C01 import import_step
+
+    import_step(repo, rep)
 
 
 SESSION_END = ("_get_changes", "_new_code")
@@ -1101,6 +1104,8 @@ def node_kind_tested(repo: Repo, rep):
                         for cn in ccfg.conds():
                             e_ = cn.ast
                             if isinstance(e_, ast.Call) and norm(e_.func) == "isinstance" and len(e_.args) == 2 and norm(e_.args[0]) == abase and not any(b.kind == "assertfail" for b, l in cn.succ):
+                                k_edges.append((cn, "T"))
+                            elif isinstance(e_, ast.Call) and any(norm(a_) == abase for a_ in e_.args) and _kind_predicate(repo, cf, e_, abase):
                                 k_edges.append((cn, "T"))
                             t_ = norm(e_)
                             if t_ == f"{abase} is not None":
